@@ -227,7 +227,7 @@ func stepInterleaved(mem *MemoryCache[vmeta], file *FileCache[vmeta]) {
 		vReach("same-key")
 	}
 	kind := symChoice(5)
-	vInterpose(func() {
+	vSecond(func() {
 		switch kind {
 		case 0:
 			c.Cache(k2, &symReader{data: []byte{9, 9, 9}, failAt: -1}, now.Add(time.Hour), vmeta{Ver: 9})
@@ -248,7 +248,7 @@ func stepInterleaved(mem *MemoryCache[vmeta], file *FileCache[vmeta]) {
 				file.janitor.evict(1)
 			}
 		}
-	}, vParam("interpose", 1))
+	})
 	name := ""
 	switch symChoice(3) {
 	case 0:
@@ -261,9 +261,9 @@ func stepInterleaved(mem *MemoryCache[vmeta], file *FileCache[vmeta]) {
 		c.Delete(vKeys[0])
 		name = "delete"
 	}
-	vInterpose(nil, 0)
+	overlapped := vSecondDone()
 	vReach("op-" + name)
-	if vInterposed() == 0 {
+	if !overlapped {
 		return
 	}
 	vReach("interleaved")
